@@ -320,6 +320,11 @@ func callSequence(root string, uuids []string, rep *hostileReport) (first string
 		if undecodable != "" && res == "ok" {
 			panics = append(panics, fmt.Sprintf("Get %s returned an object although its file cannot be decoded (%s)", u, undecodable))
 		}
+		// … and the second time as well (a failed read must leave nothing behind that a later read serves)
+		res2 := run("Get again", func() string { _, err := db.GetByUUID(&T{}, u); return errClass(err) })
+		if undecodable != "" && res2 == "ok" {
+			panics = append(panics, fmt.Sprintf("the second read of %s returned an object although its file cannot be decoded (%s)", u, undecodable))
+		}
 		run("Exist", func() string { t := &T{}; t.Initialize(u); _, err := db.Exist(t); return errClass(err) })
 	}
 	run("All", func() string { _, err := db.All(&T{}); return errClass(err) })
